@@ -22,18 +22,21 @@ from . import c14
 from .c14 import FS0
 
 # ---- real algorithm alphabet (small parameters) -------------------------------------------
+LOOSE = dict(conj=True, xi_max=1.0, mpc_lim=0.0, mpd_lim=10.0, cov_max=1e9)   # keep every stable conjugate pair
+
+
 def _classes():
     from pyoma2 import algorithms as A
 
     return {
         1: ("FDD", A.FDD, A.FDD_MS, dict(nxseg=128, method_SD="per", pov=0.5)),
-        2: ("SSIcov", A.SSIcov, A.SSIcov_MS, dict(br=6, ordmax=8, method="cov_mm")),
+        2: ("SSIcov", A.SSIcov, A.SSIcov_MS, dict(br=6, ordmax=8, method="cov_mm", hc=LOOSE)),
         3: ("pLSCF", A.pLSCF, A.pLSCF_MS, dict(ordmax=5, nxseg=128, method_SD="cor",
                                                 hc=dict(conj=False, xi_max=1.0, mpc_lim=0.0, mpd_lim=2.0))),
         4: ("FSDD", A.FSDD, A.EFDD_MS, dict(nxseg=256, method_SD="per", pov=0.5)),
-        5: ("SSIdat", A.SSIdat, A.SSIdat_MS, dict(br=5, ordmax=6)),
+        5: ("SSIdat", A.SSIdat, A.SSIdat_MS, dict(br=5, ordmax=6, hc=LOOSE)),
         6: ("EFDD", A.EFDD, A.EFDD_MS, dict(nxseg=256, method_SD="cor")),
-        7: ("SSIcovR", A.SSIcov, A.SSIcov_MS, dict(br=5, ordmax=6, method="cov_R")),
+        7: ("SSIcovR", A.SSIcov, A.SSIcov_MS, dict(br=5, ordmax=6, method="cov_R", hc=LOOSE)),
     }
 
 
